@@ -47,6 +47,21 @@ pub fn check_input(ctx: &mut Ctx, gi: &GInfo, rule: usize, input: &str) -> CaseR
         want.render(&mut want_s);
         let got = gi.g.probe(&format!("getter:{}", x), rule, input);
         if got.as_deref() != Some(want_s.as_str()) {
+            // K1: skip rules are not forced atomic, so their own derivation (as entry point or
+            // referenced explicitly) differs; accepted only if the K1 model predicts exactly this
+            if ctx.open("K1") && (gi.ir.has_ws() || gi.ir.has_comment()) {
+                let k1 = interp::run(gi.ir, &Cfg { optimised, native_plus: !optimised, k1: true, ..Cfg::default() }, &name, input, 0, input.len());
+                if let Some((_, d)) = k1.matched() {
+                    if let NK::Rule { .. } = d.kind {
+                        let mut alt = String::new();
+                        eval(&ty, &d.kids[0], gi.ir, input).render(&mut alt);
+                        if got.as_deref() == Some(alt.as_str()) && alt != want_s {
+                            ctx.ev.count("excluded.K1");
+                            return CaseResult::Known("K1");
+                        }
+                    }
+                }
+            }
             // K3/K1: token subtrees inside skip rules
             if ctx.open("K3") && (gi.ir.has_ws() || gi.ir.has_comment()) && got.as_ref().map(|g| strip_ws(g) == strip_ws(&want_s)).unwrap_or(false) {
                 return CaseResult::Known("K3");
